@@ -118,7 +118,7 @@ def rand_buffer(rng):
 
 def gen_factory(rng):
     """random factory from a few graph shapes; every parameter from the PRNG"""
-    shape = rng.choice(["line", "line", "fanout", "fanin", "diamond", "two"])
+    shape = rng.choice(["line", "line", "fanout", "fanin", "diamond", "two", "split", "split"])
     edges, nodes, links = [], [], []
     def E(): edges.append(rand_buffer(rng)); return len(edges) - 1
     def N(d): nodes.append(d); return len(nodes) - 1
@@ -144,6 +144,14 @@ def gen_factory(rng):
     elif shape == "fanin":
         s1 = source(1); s2 = source(1); m = machine(2, 1); k = sink()
         a = E(); b = E(); c = E(); links += [(a, s1, m), (b, s2, m), (c, m, k)]
+    elif shape == "split":
+        # one machine feeding a slow branch and a fast branch: out-edges that are full at different times
+        s = source(1); m1 = machine(1, 2); k1 = sink(); k2 = sink()
+        m2 = N(dict(kind="machine", pd=[rng.choice([6, 8, 12])], wc=1, setup=0, blocking=True, inp="FIRST_AVAILABLE", out="FIRST_AVAILABLE"))
+        nodes[s]["iat"] = [rng.choice([1, 1, 2])]
+        a = E(); b = E(); c = E(); d = E()
+        edges[b]["cap"] = 1
+        links += [(a, s, m1), (b, m1, m2), (c, m1, k2), (d, m2, k1)]
     else:
         s = source(1); m1 = machine(1, 2); m2 = machine(2, 1); k = sink()
         a = E(); b = E(); c = E(); d = E(); links += [(a, s, m1), (b, m1, m2), (c, m1, m2), (d, m2, k)]
